@@ -20,7 +20,7 @@ sys.path.insert(0, HERE)
 import z3  # noqa: E402
 from vc import build, ir, symex, smt, replay  # noqa: E402
 
-CONTRACT_MODULES = ['calendar', 'period']
+CONTRACT_MODULES = ['calendar', 'period', 'clock']
 
 
 class Run:
@@ -140,6 +140,8 @@ def triage(R):
             continue
         # sat
         key = o.name
+        if any(v['key'] == key.split('#case-')[0] for v in R.violations):
+            continue
         rep = dict(obligation=o.name, kind=o.kind, function=o.fn, line=o.line, info={k: v for k, v in o.info.items() if k != 'observe'},
                    model={k: v for k, v in (o.model or {}).items() if not k.startswith('obs!m')},
                    backend=o.backend)
@@ -160,8 +162,6 @@ def triage(R):
                 rep['harness'] = dst
             if o.kind in symex.SAFETY_KINDS or o.kind in ('variant', 'unwind'):
                 replayed = native['status'] in ('sanitizer', 'timeout')
-            elif native['status'] == 'sanitizer':
-                replayed = True
             elif native['status'] == 'ok' and o.kind == 'post':
                 try:
                     pre_ok, res = replay.eval_post(R.ex_for(o), o.contract, fnobj, o.model, native['out'])
